@@ -95,7 +95,7 @@ theorem wf_child {n m : Node} {r : Ref} (hn : n.WF) (h : n.child? r = some m) : 
     · cases h; simp [Node.WF]
     · cases h
 
-theorem get?_append (n : Node) (a : Addr) (r : Ref) :
+theorem ev_get?_append (n : Node) (a : Addr) (r : Ref) :
     n.get? (a ++ [r]) = (n.get? a).bind (fun m => m.child? r) := by
   induction a generalizing n with
   | nil =>
@@ -181,7 +181,7 @@ inductive Loc (d : Node) : Node → Ctx → Prop
 theorem Loc.get {d n : Node} {c : Ctx} (h : Loc d n c) : d.get? c.addr = some n := by
   induction h with
   | root => rfl
-  | child r pr sec m _ hc _ ih => simp [Ctx.child, get?_append, ih, hc]
+  | child r pr sec m _ hc _ ih => simp [Ctx.child, ev_get?_append, ih, hc]
 
 theorem Loc.wf {d n : Node} {c : Ctx} (h : Loc d n c) (hd : d.WF) : n.WF := by
   induction h with
